@@ -69,8 +69,8 @@ PROPS = {
              "each successful insert is classified (empty tree / leaf split / path split / optimistic path split / child add) from the structural dump taken before it; "
              "distinct_nontrivial = distinct contents checked",
         assumptions=COMMON_ASSUME,
-        floors=lambda t: ["size_checks", "size_vs_all_checks", "insert_path_empty_tree", "insert_path_leaf_split", "insert_path_path_split",
-                          "insert_path_path_split_optimistic", "insert_path_child_add", "op_insert_overwrite", "op_delete_absent"],
+        floors=lambda t: ["size_checks", "size_vs_all_checks", "op_insert_new", "op_insert_overwrite", "op_delete_present", "op_delete_absent"],
+        soft_floors=lambda t: ["insert_path_empty_tree", "insert_path_leaf_split", "insert_path_path_split", "insert_path_path_split_optimistic", "insert_path_child_add"],
         technique="reference-model monitor on the size counter with insert-path classification from hook dumps",
     ),
     "C11": dict(
@@ -81,8 +81,9 @@ PROPS = {
              "reachable leaves = Size = model, and the class-free shape equals the compressed radix tree recomputed from the key set alone; "
              "distinct_nontrivial = distinct structural states (classes, lanes, paths, keys) observed",
         assumptions=COMMON_ASSUME + ["the 8-bit fan-out counter of a 256-slot node is compared modulo 256 (a full node reads 0)"],
-        floors=lambda t: ["shape_checks", "closed_states", "nodes_with_optimistic_path_seen", "full_256_nodes_seen",
-                          "tr_merge_path_lt10", "tr_merge_path_eq10", "tr_merge_path_gt10", "tr_split_path_old_lt10", "tr_split_path_old_gt10"] + TRANSITION_FLOORS,
+        floors=lambda t: ["shape_checks", "closed_states", "units_sweep", "units_history"],
+        soft_floors=lambda t: ["nodes_with_optimistic_path_seen", "full_256_nodes_seen",
+                               "tr_merge_path_lt10", "tr_merge_path_eq10", "tr_merge_path_gt10", "tr_split_path_old_lt10", "tr_split_path_old_gt10"] + TRANSITION_FLOORS,
         technique="invariant hook: structural walker dump checked against radix-tree invariants and the canonical shape after every operation",
     ),
     "C14": dict(
@@ -146,8 +147,8 @@ PROPS["C10"] = dict(
          "(2) closed BFS over add/remove sequences on a bare node over boundary byte universes (crossing 4<->16), all 256 probes + both enumerations + extremes after every transition, again with hostile bytes poked into unoccupied lanes; (3) sweep/random walks through 48 and 256 with threshold oscillation. "
          "distinct_nontrivial = cases enumerated once by construction (counter) + hash-set count of sampled words/arrays/states",
     assumptions=COMMON_ASSUME + ["node16_arm64.s is excluded from the claim (cannot be executed here)", "the top lane after shiftRightClear is not asserted (the code is free to leave a stale byte there)"],
-    floors=lambda t: ["search4_cases", "insertpos4_cases", "helper4_words", "node16_cases", "node16_impl_as-built", "node16_impl_portable(node16_other.go)", "closed_states",
-                      "walk_reached_class_4", "walk_reached_class_16", "walk_reached_class_48", "walk_reached_class_256", "lookups_with_poked_lanes"],
+    floors=lambda t: ["search4_cases", "insertpos4_cases", "helper4_words", "node16_cases", "node16_impl_as-built", "closed_states", "units_walk"],
+    soft_floors=lambda t: ["node16_impl_portable(node16_other.go)", "walk_reached_class_4", "walk_reached_class_16", "walk_reached_class_48", "walk_reached_class_256", "lookups_with_poked_lanes"],
     distinct_counter="distinct_by_construction",
     technique="scalar-specification oracle on the exported primitives + model-based monitor on a bare node handle (closure and walks)",
 )
@@ -158,7 +159,8 @@ PROPS["C12"] = dict(
          "each per-tree history is then replayed alone and the chain of result traces and canonical dumps must be identical step by step; a tree emptied by deletion is shadowed by a fresh tree fed the same continuation and their structural dumps must stay identical; "
          "half of the scenarios run pinned to one P with the collector off so that a released node is what the next request of that class receives; cross-tree reuse is measured from node addresses in the dumps. distinct_nontrivial = distinct scenarios (chains)",
     assumptions=COMMON_ASSUME + ["pool audit output is diagnostic only"],
-    floors=lambda t: ["twin_runs", "empty_twins_started", "empty_twin_steps", "reuse_across_trees_class_4", "reuse_across_trees_class_16", "reuse_across_trees_class_48", "reuse_across_trees_class_256"],
+    floors=lambda t: ["twin_runs", "empty_twins_started", "empty_twin_steps"],
+    soft_floors=lambda t: ["reuse_across_trees_class_4", "reuse_across_trees_class_16", "reuse_across_trees_class_48", "reuse_across_trees_class_256"],
     technique="reference-model + structural-hook monitors under interleaving, twin-run trace comparison, measured pool reuse",
 )
 PROPS["C13"] = dict(
